@@ -460,7 +460,8 @@ func isContainsField(selectionSet ast.SelectionSet, fieldname string) bool {
 	for _, selection := range selectionSet {
 		switch sel := selection.(type) {
 		case *ast.Field:
-			if sel.Name == fieldname {
+			// the field itself under its own response key: `x: id` does not put an id into the answer
+			if sel.Name == fieldname && (sel.Alias == "" || sel.Alias == fieldname) {
 				return true
 			}
 		case *ast.InlineFragment:
